@@ -83,6 +83,9 @@ def _replace_subterm(e, old, new):
     return tuple(_replace_subterm(x, old, new) if isinstance(x, tuple) else x for x in e)
 
 
+_TRAITS = set()
+
+
 def _subst_targs(e, tmap):
     """type arguments inside an inlined generic helper, named by the helper's own parameters, become
     the caller's type arguments"""
@@ -90,12 +93,21 @@ def _subst_targs(e, tmap):
         return e
     if e[0] in ("call", "fnptr") and len(e) > 2 and isinstance(e[-1], tuple) and all(isinstance(x, str) for x in e[-1]):
         new = tuple(_re.sub(r"\b(%s)\b" % "|".join(map(_re.escape, tmap)), lambda m: tmap[m.group(1)], x) for x in e[-1])
+        old = e[-1]
         e = e[:-1] + (new,)
+        # `T::method(..)` on a type parameter that is now known: the call reads `<u8 as Trait>::method`
+        # like the same call written at the concrete type
+        if isinstance(e[1], str) and not e[1].startswith("<") and old and old[0] in tmap and "::" in e[1] and e[1].rsplit("::", 1)[0] in _TRAITS:
+            tr, meth = e[1].rsplit("::", 1)
+            e = (e[0], "<%s as %s>::%s" % (new[0], tr, meth)) + e[2:-1] + (new[1:],)
     return tuple(_subst_targs(x, tmap) if isinstance(x, tuple) and not (i == len(e) - 1 and e[0] in ("call", "fnptr") and all(isinstance(y, str) for y in x)) else x for i, x in enumerate(e))
 
 
 class Algebra:
     def __init__(self, crate, depth=0):
+        for i_ in crate.get("impls", []):
+            if i_.get("trait"):
+                _TRAITS.add(i_["trait"])
         self.crate = crate
         self.depth = depth
         self.body = None
